@@ -12,6 +12,8 @@ import (
 	"testing"
 	"time"
 
+	"github.com/fsnotify/fsnotify"
+
 	"github.com/bluenviron/mediamtx/internal/verifhook"
 	"verif.local/vmon"
 )
@@ -73,6 +75,14 @@ func c38Run(dir string, script []c38Step, symlinked bool, sentinelSeen func(path
 			tmp := target + ".tmp"
 			os.WriteFile(tmp, []byte(cur), 0o644) //nolint:errcheck
 			os.Rename(tmp, target)                //nolint:errcheck
+		case st.Op == "replace-old-mtime":
+			// a staged file moved into place (mv of a file prepared earlier, cp -p, rsync -t): the new content carries an
+			// old modification time
+			tmp := target + ".staged"
+			os.WriteFile(tmp, []byte(cur), 0o644) //nolint:errcheck
+			old := time.Now().Add(-time.Hour)
+			os.Chtimes(tmp, old, old) //nolint:errcheck
+			os.Rename(tmp, target)    //nolint:errcheck
 		case st.Op == "recreate":
 			os.Remove(target) //nolint:errcheck
 			time.Sleep(2 * time.Millisecond)
@@ -95,7 +105,9 @@ func c38Run(dir string, script []c38Step, symlinked bool, sentinelSeen func(path
 	ack := make(chan struct{}, 1024)
 	go func() {
 		defer close(consumerDone)
-		for range w.Watch() {
+		for {
+			_, open := <-w.Watch()
+			// Core's select fires on a closed channel as well (it reloads): so does this consumer, once
 			b, err := os.ReadFile(target)
 			mu.Lock()
 			res.signals++
@@ -104,13 +116,59 @@ func c38Run(dir string, script []c38Step, symlinked bool, sentinelSeen func(path
 			}
 			mu.Unlock()
 			ack <- struct{}{}
+			if !open {
+				return
+			}
 		}
 	}()
+	overflow := false
 	for _, st := range script[first:] {
 		time.Sleep(time.Duration(st.GapMs) * time.Millisecond)
+		if st.Op == "overflow-write" {
+			// fault injection: the kernel's event queue overflows. The events of the last change are dropped (here: the
+			// directory is not watched while the file changes) and fsnotify reports ErrEventOverflow, as it does after a
+			// real overflow once the backlog has been read
+			parent := filepath.Dir(target)
+			w.inner.Remove(parent) //nolint:errcheck
+			cur = content()
+			os.WriteFile(target, []byte(cur), 0o644) //nolint:errcheck
+			w.inner.Add(parent)                      //nolint:errcheck
+			select {
+			case w.inner.Errors <- fsnotify.ErrEventOverflow:
+				overflow = true
+			case <-time.After(20 * time.Second):
+			}
+			break
+		}
 		step(st)
 	}
 	res.finalData = cur
+	if overflow {
+		// the loop has received the error (that is the consumption point); bounded progress as below
+		res.consumed = true
+		deadline := time.After(10 * time.Second)
+	drainO:
+		for {
+			mu.Lock()
+			done := loaded == cur
+			mu.Unlock()
+			if done {
+				break
+			}
+			select {
+			case <-ack:
+			case <-time.After(100 * time.Millisecond):
+			case <-deadline:
+				break drainO
+			}
+		}
+		mu.Lock()
+		res.lastLoaded = loaded // before Close: closing the watcher closes the channel, which this consumer takes as a notification
+		mu.Unlock()
+		w.Close()
+		<-consumerDone
+		return res
+	}
 	// quiescence by logical order: an unrelated file is touched; once the loop has consumed its event it has consumed
 	// every earlier one (and delivered the signal it decided to send, since that send blocks the loop)
 	sentinel := filepath.Join(dir, "sentinel")
@@ -140,11 +198,11 @@ drain:
 			break drain
 		}
 	}
+	mu.Lock()
+	res.lastLoaded = loaded // before Close (see above)
+	mu.Unlock()
 	w.Close()
 	<-consumerDone
-	mu.Lock()
-	res.lastLoaded = loaded
-	mu.Unlock()
 	return res
 }
 
@@ -179,7 +237,7 @@ func TestVerifC38(t *testing.T) {
 	}
 	n := r.N(48, 1200)
 	gaps := []int{0, 1, 5, 11, 13, 15, 17, 20, 100, 300, 600, 900, 990, 1010, 1100, 1500, 2100}
-	ops := []string{"write", "replace", "recreate", "truncate-write"}
+	ops := []string{"write", "replace", "recreate", "truncate-write", "replace-old-mtime"}
 	type job struct {
 		i        int
 		script   []c38Step
@@ -198,6 +256,15 @@ func TestVerifC38(t *testing.T) {
 	}
 	// boundary sweep: a second change at every offset around the watcher's two time constants (the 10 ms settle wait
 	// after an event and the 1 s minimum interval), after a first change that is notified at once
+	// event queue overflow (fault injection) after 0..2 ordinary changes
+	for k := 0; k < 6; k++ {
+		var sc []c38Step
+		for j := k % 3; j > 0; j-- {
+			sc = append(sc, c38Step{ops[rng.IntN(len(ops))], gaps[rng.IntN(len(gaps))]})
+		}
+		sc = append(sc, c38Step{"overflow-write", []int{50, 300, 1200}[k%3]})
+		jobs = append(jobs, job{len(jobs), sc, false})
+	}
 	for g := 8; g <= 24; g++ {
 		jobs = append(jobs, job{len(jobs), []c38Step{{"write", 100}, {ops[g%len(ops)], g}}, false})
 	}
@@ -245,6 +312,9 @@ func TestVerifC38(t *testing.T) {
 			if len(res.script) > 1 && res.script[len(res.script)-1].GapMs < 1000 {
 				cls = "last-change-within-1s-of-a-notification"
 			}
+			if res.script[len(res.script)-1].Op == "overflow-write" {
+				cls = "last-change-lost-in-an-event-queue-overflow"
+			}
 			r.Violation("final-content-not-loaded:"+cls, fmt.Sprintf("%s, changes [%s]: after the file stopped changing (and the watcher had consumed every event) the server had last loaded %q, the file holds %q (%d notifications)", kind, strings.Join(desc, ", "), strings.TrimSpace(res.lastLoaded), strings.TrimSpace(res.finalData), res.signals),
 				map[string]any{"script": res.script, "layout": kind})
 		}
@@ -253,7 +323,7 @@ func TestVerifC38(t *testing.T) {
 		}
 	}
 	r.Count("fs_events_consumed_by_the_watcher_loops", int64(consumedEvents))
-	r.Finish("scripts of 1..5 changes of the watched file (write, write-to-temp + rename over, remove + create, truncate + two writes; or, for one script in three, the Kubernetes ConfigMap layout where a ..data symlink is swapped) separated by pauses of 0..2100 ms (a first pause of 0 means: immediately after Initialize returned) chosen around the watcher's 1 s minimum interval, played against a real ConfWatcher (real inotify), 16 scripts in parallel in separate directories. A consumer does what Core does (re-reads the file on every notification). After the script an unrelated file is created in the directory and the hook event confwatcher.event shows when the loop has consumed it (so every change was seen by the loop). Oracle (bounded progress): the final content is loaded within 10 s (10 times the minimum interval) after that point; the verdict is taken as soon as it is. non-trivial = distinct script",
+	r.Finish("scripts of 1..5 changes of the watched file (write, write-to-temp + rename over, rename of a staged file with an old modification time, remove + create, truncate + two writes; or, for one script in three, the Kubernetes ConfigMap layout where a ..data symlink is swapped) separated by pauses of 0..2100 ms (a first pause of 0 means: immediately after Initialize returned) chosen around the watcher's 1 s minimum interval, played against a real ConfWatcher (real inotify), 16 scripts in parallel in separate directories. A consumer does what Core does (re-reads the file on every notification). After the script an unrelated file is created in the directory and the hook event confwatcher.event shows when the loop has consumed it (so every change was seen by the loop). Six more scripts end with an injected event-queue overflow (the last change happens while the directory is not watched, then fsnotify's ErrEventOverflow is delivered to the loop, as after a real overflow). Oracle (bounded progress): the final content is loaded within 10 s (10 times the minimum interval) after that point; the verdict is taken as soon as it is. non-trivial = distinct script",
 		"a script whose sentinel event is not consumed within 20 s is inconclusive, not a violation")
 	_ = rand.IntN
 }
